@@ -205,7 +205,30 @@ class Poly:
         case split over (at most 4) boolean atoms that multiply non-boolean ones (if-then-else
         shaped polynomials)."""
         ats = self.atoms()
-        if 1 <= len(ats) <= 6 and self.degree() >= 2 and all(is_bool_atom(a) for a in ats):
+        vsyms = [a[1] for a in ats if a[0] == "var"]
+        if len(set(vsyms)) < len(vsyms) and all(len(m) == 1 for m in self.terms if any(a[0] == "var" for a in m)):
+            # the variant atoms of one enum value exclude each other: where they occur linearly, each group
+            # contributes one of its coefficients (or 0: the variant that has no atom), not their sum
+            rest = Poly({m: c for m, c in self.terms.items() if not (len(m) == 1 and m[0][0] == "var")})
+            lo, hi = rest.range(facts) if rest.terms else (0, 0)
+            groups = {}
+            for m, c in self.terms.items():
+                if len(m) == 1 and m[0][0] == "var":
+                    a = m[0]
+                    kn = facts.known.get(a) if facts is not None else None
+                    groups.setdefault(a[1], []).append((c, kn))
+            for g in groups.values():
+                if any(kn == 1 for _c, kn in g):
+                    cs = [c for c, kn in g if kn == 1][:1]
+                else:
+                    cs = [c for c, kn in g if kn != 0] + [0]
+                lo = None if lo is None else lo + min(cs)
+                hi = None if hi is None else hi + max(cs)
+            return (lo, hi)
+        if 1 <= len(ats) <= 8 and all(is_bool_atom(a) for a in ats) and (
+                (self.degree() >= 2 and len(ats) <= 6)
+                or len(set(a[1] for a in ats if a[0] == "var")) < sum(1 for a in ats if a[0] == "var")):
+            # (the variant atoms of one enum value exclude each other: a sum of them is not their interval sum)
             # exact range of a small boolean polynomial
             ats = sorted(ats, key=_akey)
             vals = []
